@@ -228,6 +228,13 @@ func (w *Writer) Delete(bs []byte) (success bool) {
 
 // Delete2 is same as Delete(). Additionally returns the deleted item's node
 func (w *Writer) Delete2(bs []byte) (n *skiplist.Node, success bool) {
+	// Stay inside one barrier session from the lookup to the end of the delete:
+	// otherwise another writer can delete and reclaim the node in between and
+	// DeleteNode would read freed memory.
+	barrier := w.store.GetAccesBarrier()
+	token := barrier.Acquire()
+	defer barrier.Release(token)
+
 	if n := w.GetNode(bs); n != nil {
 		return n, w.DeleteNode(n)
 	}
